@@ -50,4 +50,30 @@ CHECKS = {
                  '(C04 breaks file connections inside transfers); messages handled while CLOSING are not counted, only after CLOSED'),
         'technique': 'deterministic simulation with injected connection faults + per-connection monitor automaton and registry/socket comparison',
     },
+    'C19': {
+        'category': 'exploration',
+        'text': ('seeded histories (<= 12 notifications over 2 rooms x 3 users incl. the logged-in user, every ordered pair '
+                 'of the 25 notification kinds in the directed corpus) are sent by the scripted server through the real '
+                 'reader loop, event bus and weak user table, with TCP segmentation/coalescing and explicit gc steps as '
+                 'schedule dimensions; after every delivered notification the public room/user view is compared with a '
+                 'replica folded from the same notifications (models/rooms.py), and emitted chat/ticker/membership events '
+                 'are checked for identity and block flags.'),
+        'design_ref': 'DESIGN.md section 3 (C19), appendix B.5',
+        'note': ('the schedule dimension is small for this property (stated in DESIGN.md): deciding dimension is the generated '
+                 'history; where the wording leaves a choice both outcomes pass (see INFO.assumptions in checks/c19.py)'),
+        'technique': 'deterministic simulation (scripted server, real client) + replica fold compared after every delivered notification',
+    },
+    'C20': {
+        'category': 'exploration',
+        'text': ('limiter level: a real Network with 1-4 registered file connections whose consumer tasks call take_tokens() on '
+                 'the limiter their connection currently holds, with gaps from 0 to minutes on the virtual clock, while a '
+                 'controller changes the limits (raise, lower, to/from unlimited, same value) at plan instants and while a '
+                 'consumer is blocked; every ordered pair of limit values is enumerated in the corpus. The grant history is '
+                 'judged exactly for every window (sliding-window byte bound incl. changes), for unlimited-not-throttled and '
+                 'for the bounded-wait clause.'),
+        'design_ref': 'DESIGN.md section 3 (C20), appendix B.8',
+        'note': ('bytes moved are the grants of take_tokens (what send_file/receive_file then move); the transfer-level variant '
+                 '(two real clients) is exercised by C04 with limits but judged there only for completion; slack term as stated in DESIGN.md'),
+        'technique': 'deterministic simulation on the virtual clock (real limiter/network objects, scripted consumers) + exact window oracle',
+    },
 }
